@@ -165,7 +165,7 @@ func C12(r *drv.Run) {
 	if !quick(r) {
 		nrand = 600000
 	}
-	r.Rule = "exhaustive: all 24 166 expressions of depth <= 1 (3 unary x 43 leaves + 13 binary x 43 x 43 leaves, well and ill typed) in five statement contexts (transform return, predicate return, if condition, set, debug); all statement skeletons of nesting depth <= 3 built from loop / if / if-else / ill-typed if around break, continue, return string|number|bool, debug, set, including a statement placed after a nested loop or if (compile only); seeded random statement lists (set, if/else, loop with break/continue, return, debug) over random expression trees of depth <= 2, in predicate and transform context, every variable initialised once with the type its name stands for. Oracle: type checker transcribed from the documented tables decides accept/reject; accepted single-typed terminating programs are run and must not raise an evaluator panic. Distinct by source text; non-trivial = verdicts agreed on a distinct program (both accepted and rejected programs are required)."
+	r.Rule = "exhaustive: all 24 166 expressions of depth <= 1 (3 unary x 43 leaves + 13 binary x 43 x 43 leaves, well and ill typed) in five statement contexts (transform return, predicate return, if condition, set, debug); all statement skeletons of nesting depth <= 3 built from loop / if / if-else / ill-typed if around break, continue, return string|number|bool, debug, set, including a statement placed after a nested loop or if (compile only); seeded random statement lists (set, if/else, loop with break/continue, return, debug) over random expression trees of depth <= 2, in predicate and transform context, every variable initialised once with the type its name stands for; pairs of functions in one source where the second reads names only the first assigned (no checker state may leak from one function into the next). Oracle: type checker transcribed from the documented tables decides accept/reject; accepted single-typed terminating programs are run and must not raise an evaluator panic. Distinct by source text; non-trivial = verdicts agreed on a distinct program (both accepted and rejected programs are required)."
 	r.Assumptions = []string{
 		"typing of variables: latest assignment in program order, unassigned names are strings (what the documentation's inference amounts to for single-typed variables)",
 		"integer division by zero at run time is not an undefined *typing* operation (known finding K1 under C09) and is ignored here",
@@ -247,6 +247,73 @@ func C12(r *drv.Run) {
 			c12Check(r, cs, src, &c, res)
 			if i%3001 == 0 {
 				r.Sample(map[string]any{"program": src})
+			}
+		}}
+	})
+	// two functions in one source: the second reads names the first one assigned (and never assigns them
+	// itself). Each function is typed on its own: nothing the checker learnt in one may leak into the next
+	// (variable types, "inside a loop", predicate/transform context).
+	npair := nrand / 6
+	r.Exec(npair, drv.ExecOpts{Batch: 1000}, func(i int) *drv.Item {
+		rng := gen.Derive(r.Seed, "C12pair", i)
+		pg := newProcGen(rng)
+		t1, t2 := rng.Bool(), rng.Bool()
+		a := pg.withInits(pg.stmtList(2, 1+rng.Intn(3), t1, false, true))
+		// the second function uses the same variable names, uninitialised (they are strings there)
+		pg2 := newProcGen(rng)
+		pg2.strVar, pg2.numVar, pg2.boolVar = pg.strVar, pg.numVar, pg.boolVar
+		b := pg2.stmtList(2, 1+rng.Intn(3), t2, false, rng.Bool())
+		if rng.Chance(1, 4) {
+			b = append(b, proc.SBreak{})
+		}
+		render := func(ss []proc.Stmt, transform bool, name string) string {
+			body := proc.RenderStmts(ss, false)
+			if transform {
+				return "set " + name + " to transform " + body + " end\n"
+			}
+			return "set " + name + " to pattern 'a' begin " + body + " end\n"
+		}
+		src := render(a, t1, "fa") + render(b, t2, "fb") + "find all 'a'"
+		ctxOf := func(tr bool) proc.Context {
+			if tr {
+				return proc.Transform
+			}
+			return proc.Predicate
+		}
+		want := proc.CheckStmts(a, ctxOf(t1), c12TypeEnv(), false) && proc.CheckStmts(b, ctxOf(t2), c12TypeEnv(), false)
+		c := wire.Case{Op: "compile", Src: []byte(src)}
+		return &drv.Item{Case: c, Check: func(res *wire.Result) {
+			if crashOrGuard(r, res, &c, src, false) {
+				return
+			}
+			cr := res.Compile
+			if cr == nil || cr.Budget != "" {
+				return
+			}
+			if cr.Panic != nil {
+				r.Violate(&drv.Violation{Sig: "compile-panic:" + cr.Panic.Frame, Panic: cr.Panic.Msg, Frame: cr.Panic.Frame, Src: src, Case: &c})
+				return
+			}
+			r.Eval(1)
+			if !cr.OK && !strings.HasPrefix(cr.Err, "GenError") {
+				r.Inconclusive("generated process code did not parse: " + oneLineN(cr.Err, 160) + " | " + src)
+				return
+			}
+			if cr.OK != want {
+				sig := "accepted-ill-typed:"
+				if want {
+					sig = "rejected-well-typed:"
+				}
+				r.Violate(&drv.Violation{Sig: sig + "two-functions", Src: src, Err: cr.Err, Case: &c,
+					Detail: map[string]any{"documented_rules_say": map[bool]string{true: "accept", false: "reject"}[want], "compile_said": map[bool]string{true: "accept", false: "reject: " + oneLineN(cr.Err, 100)}[cr.OK]}})
+				return
+			}
+			r.Nontrivial(src)
+			r.Count("ctx_two-functions", 1)
+			if want {
+				r.Count("accepted", 1)
+			} else {
+				r.Count("rejected", 1)
 			}
 		}}
 	})
